@@ -142,7 +142,8 @@ func H_C04_typed(v *V) {
 	case 5:
 		fault, want = []string{"--flag=" + V}, ErrNoArgumentForBool
 	case 6:
-		v.Assume(!refIsDecimal(V))
+		// (a double-quoted literal is unquoted first, so "7" is a valid value)
+		v.Assume(!refIsDecimal(V) && !(len(V) > 0 && V[0] == '"'))
 		fault, want = []string{"--num=" + V}, ErrMarshal
 	case 7:
 		v.Assume(V != "a" && V != "b" && !(len(V) > 0 && V[0] == '"'))
